@@ -12,12 +12,15 @@ import (
 	"go/token"
 	"os"
 	"path/filepath"
+	"reflect"
 	"sort"
 	"strings"
 )
 
 type Facts struct {
-	Loop map[string]map[string]bool // loop name -> {resetCatch, resetExit}
+	Probes probeResults               // behavioural probes of the compiled tree (final value of the facts below)
+	AST    map[string]bool            // what the go/ast shape reading says about the same facts
+	Loop   map[string]map[string]bool // loop name -> {resetCatch, resetExit}
 	// fields assigned before the child call in each loop (for the evidence / replay files)
 	LoopAssigns              map[string][]string
 	PrimParsePostClearsCatch bool
@@ -690,6 +693,26 @@ func extractFacts(repo string) (*Facts, error) {
 			return true
 		})
 	}
+	// final value of each behavioural fact: the probe. The go/ast reading is kept for the replay file.
+	pr := runProbes()
+	fc.Probes = pr
+	fc.AST = map[string]bool{
+		"structParseResetCatch": fc.Loop["structParse"]["resetCatch"], "structParseResetExit": fc.Loop["structParse"]["resetExit"],
+		"structValResetCatch": fc.Loop["structVal"]["resetCatch"], "structValResetExit": fc.Loop["structVal"]["resetExit"],
+		"sliceParseResetCatch": fc.Loop["sliceParse"]["resetCatch"], "sliceParseResetExit": fc.Loop["sliceParse"]["resetExit"],
+		"sliceValResetCatch": fc.Loop["sliceVal"]["resetCatch"], "sliceValResetExit": fc.Loop["sliceVal"]["resetExit"],
+		"primParsePostClearsCatch": fc.PrimParsePostClearsCatch, "primValPostClearsCatch": fc.PrimValPostClearsCatch,
+		"keyBufGuard": fc.DynKeyBufGuard, "nilProvGuard": fc.DynNilProvGuard, "unexportedGuard": fc.DynUnexportedGuard,
+		"emptySegGuard": fc.DynEmptySegGuard, "mapConvert": fc.DynMapConvert, "cloneCopies": fc.CloneCopiesTests && fc.CloneCopiesPosts,
+	}
+	fc.Loop["structParse"] = map[string]bool{"resetCatch": pr.StructParseResetCatch, "resetExit": pr.StructParseResetExit}
+	fc.Loop["structVal"] = map[string]bool{"resetCatch": pr.StructValResetCatch, "resetExit": pr.StructValResetExit}
+	fc.Loop["sliceParse"] = map[string]bool{"resetCatch": pr.SliceParseResetCatch, "resetExit": pr.SliceParseResetExit}
+	fc.Loop["sliceVal"] = map[string]bool{"resetCatch": pr.SliceValResetCatch, "resetExit": pr.SliceValResetExit}
+	fc.PrimParsePostClearsCatch, fc.PrimValPostClearsCatch = pr.PrimParsePostClearsCatch, pr.PrimValPostClearsCatch
+	fc.DynKeyBufGuard, fc.DynNilProvGuard, fc.DynUnexportedGuard, fc.DynEmptySegGuard, fc.DynMapConvert =
+		pr.KeyBufGuard, pr.NilProvGuard, pr.UnexportedGuard, pr.EmptySegGuard, pr.MapConvert
+	fc.CloneCopiesTests, fc.CloneCopiesPosts = pr.CloneCopies, pr.CloneCopies
 	return fc, nil
 }
 
@@ -713,6 +736,15 @@ func (f *Facts) lean() string {
 	s.WriteString("-- GENERATED by harness/cmd/extract (go/ast) from /repo's working tree. Do not edit.\nimport Zog.Engine\nimport Zog.Http\nimport Zog.Dyn\nnamespace Zog.Gen\nopen Zog\n\n")
 	for _, l := range []string{"structParse", "structVal", "sliceParse", "sliceVal"} {
 		fmt.Fprintf(&s, "-- %s loop assigns before the child call: %s\n", l, strings.Join(f.LoopAssigns[l], ", "))
+	}
+	s.WriteString("-- The behavioural facts below are the outcome of probes run on the compiled working tree (cmd/extract/probes.go).\n")
+	astKeys := make([]string, 0, len(f.AST))
+	for k := range f.AST {
+		astKeys = append(astKeys, k)
+	}
+	sort.Strings(astKeys)
+	for _, k := range astKeys {
+		fmt.Fprintf(&s, "-- go/ast shape reading of %s: %v\n", k, f.AST[k])
 	}
 	fmt.Fprintf(&s, `def facts : Facts := {
   structParseResetCatch := %s, structParseResetExit := %s,
@@ -791,7 +823,40 @@ func (f *Facts) lean() string {
 	return s.String()
 }
 
+// probeDoc: what each behavioural probe runs (the concrete failing input when a probe is false)
+var probeDoc = map[string][2]string{
+	"StructParseResetCatch":    {"C01 C02 C04 C05 C09 C12 C13", "Struct{a: String().Required(), b: Int().Catch(1), c: Slice(Int()).Required()}.Parse(map{b: 3}): the required issue of c must be reported on every run (400 runs over the random field orders); it is swallowed when c is visited right after the catching primitive b and an issue already exists"},
+	"StructValResetCatch":      {"C01 C02 C04 C05 C09 C12 C13", "the same schema, Validate(&S3{B: 3})"},
+	"StructParseResetExit":     {"C01 C02 C05 C09 C12 C13", "Struct{b: Int().GT(5).Catch(9), c: Slice(Int()).Min(0).Max(0)}.Parse(map{b: 1, c: [1]}): the max issue of c must be reported on every run; it is skipped when c is visited after b's catch was triggered"},
+	"StructValResetExit":       {"C01 C02 C05 C09 C12 C13", "the same schema, Validate(&S3{B: 1, C: []int{1}})"},
+	"SliceParseResetExit":      {"C01 C02 C03 C05 C12", "Slice(Int().GT(5).Catch(99)).Parse([1, 10, 20]) must yield [99 10 20]"},
+	"SliceValResetExit":        {"C01 C02 C05 C12 C13", "Slice(Int().GT(5).Catch(99)).Validate(&[]int{1, 10, 20}) must yield [99 10 20]"},
+	"SliceParseResetCatch":     {"C02 C05 C12", "Slice(Preprocess(fn, Int().Catch(1))).Parse([\"bad\", \"ok\", \"bad\"]): both failing elements must report their issue"},
+	"SliceValResetCatch":       {"C02 C05 C12", "Slice(Preprocess(fn, Int().Catch(1))).Validate(&[]int{-1, 5, -1}): both failing elements must report their issue"},
+	"PrimParsePostClearsCatch": {"C12", "Int().Catch(3).PostTransform(fail).Parse(5): the PostTransform error must be reported"},
+	"PrimValPostClearsCatch":   {"C12", "Int().Catch(3).PostTransform(fail).Validate(&5): the PostTransform error must be reported"},
+	"KeyBufGuard":              {"C06", "a struct schema with a 40-byte key, Parse and Validate: must not panic"},
+	"NilProvGuard":             {"C06 C15", "Struct{a: String()}.Parse(zjson.Decode(\"{}\")): must not panic"},
+	"UnexportedGuard":          {"C06", "Struct{a: String()}.Parse(struct{ a string }{\"x\"}): must not panic"},
+	"EmptySegGuard":            {"C06 C10", "nested field tagged `zog:\"\"` with a failing test: rendering the path must not panic"},
+	"MapConvert":               {"C06", "Struct{a: String()}.Parse(namedMap{a: x}) and a map with a named element type: must not panic"},
+	"CloneCopies":              {"C16", "base with three tests; A := base.Pick(a).Test(tA); B := base.Omit(a).Test(tB); C := base.Extend({}).Test(tC): running A must run tA and neither tB nor tC (same with PostTransforms)"},
+}
+
 func (f *Facts) json() []byte {
-	out, _ := json.MarshalIndent(f, "", " ")
+	type failed struct {
+		Probe    string `json:"probe"`
+		Props    string `json:"properties"`
+		Scenario string `json:"scenario"`
+	}
+	var fails []failed
+	rv := reflect.ValueOf(f.Probes)
+	for i := 0; i < rv.NumField(); i++ {
+		name := rv.Type().Field(i).Name
+		if !rv.Field(i).Bool() {
+			fails = append(fails, failed{name, probeDoc[name][0], probeDoc[name][1]})
+		}
+	}
+	out, _ := json.MarshalIndent(map[string]any{"facts": f, "failed_probes": fails}, "", " ")
 	return out
 }
